@@ -1,8 +1,188 @@
-(* C14 -- stub *)
+(* C14 -- a conformer ensemble stays rectangular and its conformers are live views.
+   Property theorems only; the model is Model/Ens.v (the definitions evaluated by the correspondence shards of
+   every run: ConformerEnsemble.__init__ branch by branch, append, extend, scale, invert, translate, rotate, the
+   whole-array setters, the Conformer view, iteration, slicing, dumps, the io round trip), the proofs are in
+   Proofs/Ens.v.
+
+   Rect e       :=  coords, atomic_charges and weights of e describe the same number of conformers, and every
+                    coordinate block and every charge row has exactly (na e) = n_atoms entries.
+   StoreRect W  :=  every ensemble created so far is Rect.
+   step W o     =   Ok W' out (returned) | Err (raised: the store is unchanged -- by construction of the model,
+                    and checked against the implementation after every raising call of the correspondence run)
+                    | Unspec (two recorded findings: append onto the atomless empty ensemble ConformerEnsemble();
+                    explicit n_conformers=0 with a Molecule).  `run` stops at Unspec, so every theorem about
+                    `run W h = Some W'` is about histories that stay outside those two calls.           *)
 From Coq Require Import List Bool ZArith.
 Import ListNotations.
 From Molli Require Import Model.Ens Proofs.Ens.
 
-Theorem C14_rect_alloc : forall k a, Rect (alloc k a).
-Proof. exact Rect_alloc. Qed.
-Print Assumptions C14_rect_alloc.
+(* ---- the invariant is decidable (rect_b is what `check_case` could evaluate; here it links Rect to data) *)
+Theorem C14_rect_decidable : forall e, rect_b e = true <-> Rect e.
+Proof. exact rect_b_iff. Qed.
+Print Assumptions C14_rect_decidable.
+
+(* ---- established by EVERY constructor branch: from nothing / atoms / a list of structures (molecules or
+        conformer views) / another ensemble / a molecule / a plain structure, with or without explicit coords,
+        atomic_charges, weights -- whenever the constructor returns at all *)
+Theorem C14_rect_constructors : forall W src nc_arg na_arg xc xq xw e,
+  StoreRect W -> init W src nc_arg na_arg xc xq xw = CSome e -> Rect e.
+Proof. exact init_rect. Qed.
+Print Assumptions C14_rect_constructors.
+
+(* ---- preserved by EVERY operation of the alphabet (31 letters, incl. append / extend / extend by an ensemble,
+        collective transforms, setters, writes through a conformer, the io round trip) ... *)
+Theorem C14_rect_step : forall W o W' w, StoreRect W -> step W o = Ok W' w -> StoreRect W'.
+Proof. exact step_rect. Qed.
+Print Assumptions C14_rect_step.
+
+(* ---- ... hence after EVERY history, starting from nothing (a raising call is followed by the next one) *)
+Theorem C14_rect_history : forall h W, run empty_store h = Some W -> StoreRect W.
+Proof. intros h W H. exact (run_rect h empty_store W StoreRect_empty H). Qed.
+Print Assumptions C14_rect_history.
+
+Theorem C14_rect_history_from : forall h W W', StoreRect W -> run W h = Some W' -> StoreRect W'.
+Proof. exact run_rect. Qed.
+Print Assumptions C14_rect_history_from.
+
+(* ---- operations on one ensemble never change its number of atoms, and only append / extend change its
+        number of conformers *)
+Theorem C14_shape_frame : forall W o i f e e',
+  ens_fun W o = Some (i, f) -> f e = Some e' -> na e' = na e /\ (resizing o = false -> nc e' = nc e).
+Proof. exact ens_fun_frame. Qed.
+Print Assumptions C14_shape_frame.
+
+(* ---- the Conformer view ens[k] is a lens onto row k: coordinates ... *)
+Theorem C14_lens_coords : forall k v e e', c_set_coords k v e = Some e' ->
+  c_get_coords k e' = Some v /\
+  (forall k', py_index (nc e) k' <> py_index (nc e) k -> c_get_coords k' e' = c_get_coords k' e) /\
+  na e' = na e /\ nc e' = nc e /\ charges e' = charges e /\ weights e' = weights e.
+Proof.
+  intros k v e e' H. split; [exact (lens_coords_get_set k v e e' H)|].
+  split; [intros k' Hk; exact (lens_coords_other k k' v e e' H Hk)|exact (lens_coords_frame k v e e' H)].
+Qed.
+Print Assumptions C14_lens_coords.
+
+(* ---- ... and partial charges (whole-array assignment through the view: the former finding 38) *)
+Theorem C14_lens_charges : forall k v e e', c_set_charges k v e = Some e' ->
+  c_get_charges k e' = Some v /\
+  (forall k', py_index (length (charges e)) k' <> py_index (length (charges e)) k -> c_get_charges k' e' = c_get_charges k' e) /\
+  na e' = na e /\ nc e' = nc e /\ coords e' = coords e /\ weights e' = weights e.
+Proof.
+  intros k v e e' H. split; [exact (lens_charges_get_set k v e e' H)|].
+  split; [intros k' Hk; exact (lens_charges_other k k' v e e' H Hk)|exact (lens_charges_frame k v e e' H)].
+Qed.
+Print Assumptions C14_lens_charges.
+
+(* ---- writing back what was read changes nothing *)
+Theorem C14_lens_put_get : forall k e, Rect e ->
+  (forall v, c_get_coords k e = Some v -> c_set_coords k v e = Some e) /\
+  (forall v, c_get_charges k e = Some v -> c_set_charges k v e = Some e).
+Proof. intros k e H. split; intros v Hv; [exact (lens_coords_set_get k v e H Hv)|exact (lens_charges_set_get k v e H Hv)]. Qed.
+Print Assumptions C14_lens_put_get.
+
+(* ---- EVERY write through a conformer (whole row, one element, scale / translate / transform of the view)
+        leaves every other ensemble, every iterator, the shape, the weights and every other conformer's
+        coordinates and charges as they were *)
+Theorem C14_conf_write_frame : forall W o i k W' w,
+  StoreRect W -> conf_write o = Some (i, k) -> step W o = Ok W' w ->
+  iters W' = iters W /\ length (enss W') = length (enss W) /\
+  (forall j, j <> i -> nth_error (enss W') j = nth_error (enss W) j) /\
+  exists e e', nth_error (enss W) i = Some e /\ nth_error (enss W') i = Some e' /\
+    na e' = na e /\ nc e' = nc e /\ weights e' = weights e /\
+    forall k', py_index (nc e) k' <> py_index (nc e) k ->
+      c_get_coords k' e' = c_get_coords k' e /\ c_get_charges k' e' = c_get_charges k' e.
+Proof. exact conf_write_frame. Qed.
+Print Assumptions C14_conf_write_frame.
+
+(* ---- every conformer of a rectangular ensemble is a FULL molecule view (n_atoms coordinate rows, n_atoms charges),
+        the ensemble can be dumped conformer by conformer, and the io round trip gives back the same ensemble *)
+Theorem C14_view_writable : forall W e, Rect e ->
+  (forall k j, py_index (nc e) k = Some j ->
+     exists c q, c_get_coords k e = Some c /\ c_get_charges k e = Some q /\ length c = na e /\ length q = na e) /\
+  dump_mol2 e = Some (zipw (@combine row3 num) (coords e) (charges e)) /\ length (dump_xyz e) = nc e /\
+  ser_roundtrip W e = CSome e.
+Proof.
+  intros W e H. split; [intros k j Hk; exact (conf_view_full e k j H Hk)|].
+  destruct (dump_rect e H) as [D1 D2]. split; [exact D1|]. split; [exact D2|exact (ser_roundtrip_id W e H)].
+Qed.
+Print Assumptions C14_view_writable.
+
+(* ---- iteration: one complete loop visits 0 .. nc-1 once each, in order; nested loops visit the full product *)
+Theorem C14_for_loop : forall len, for_ids len = seq 0 len /\ nested_ids len = list_prod (seq 0 len) (seq 0 len).
+Proof. intros len. split; [exact (for_ids_seq len)|exact (nested_ids_prod len)]. Qed.
+Print Assumptions C14_for_loop.
+
+(* ---- any interleaving: an iterator standing at cursor c over an ensemble of len conformers yields
+        c, c+1, ..., len-1 on its successive next() calls and then stops, WHATEVER happens in between (other
+        iterators over the same or other ensembles being created and advanced, writes, transforms, new ensembles,
+        dumps) as long as nothing resizes an ensemble *)
+Theorem C14_iter_interleaved : forall h W Wf t i c len,
+  IterAt W t i c len -> no_resize h -> run W h = Some Wf ->
+  iter_yields t W h = firstn (count_next t h) (seq c (len - c)).
+Proof. exact iter_interleaved. Qed.
+Print Assumptions C14_iter_interleaved.
+
+(* ---- a fresh iterator: each conformer exactly once, in order *)
+Theorem C14_iter_once : forall W i e h Wf,
+  nth_error (enss W) i = Some e -> no_resize h -> run W (IterNew i :: h) = Some Wf ->
+  let t := length (iters W) in
+  iter_yields t W (IterNew i :: h) = firstn (count_next t h) (seq 0 (nc e)) /\
+  (nc e <= count_next t h -> iter_yields t W (IterNew i :: h) = seq 0 (nc e)).
+Proof. exact iter_fresh. Qed.
+Print Assumptions C14_iter_once.
+
+(* ---- the protocol as it was before the repair (the cursor stored on the ensemble, __iter__ returning the
+        ensemble itself) visits only (0,0) .. (0,len-1) in a nested loop: refuted for every ensemble with at
+        least two conformers *)
+Theorem C14_shared_cursor_refuted : forall len, 2 <= len ->
+  nested_ids_shared len = map (pair 0) (seq 0 len) /\ nested_ids_shared len <> nested_ids len.
+Proof. intros len H. split; [exact (nested_ids_shared_spec len)|exact (shared_cursor_refuted len H)]. Qed.
+Print Assumptions C14_shared_cursor_refuted.
+
+(* ---- a slice only names conformers that exist *)
+Theorem C14_slice_valid : forall len a b c ids x,
+  slice_ids len a b c = Some ids -> In x ids -> (0 <= x < Z.of_nat len)%Z.
+Proof. exact slice_ids_in_range. Qed.
+Print Assumptions C14_slice_valid.
+
+(* ---- every correspondence case the kernel accepts is a run of this model from nothing, ending rectangular *)
+Theorem C14_check_case_sound : forall c, check_case c = true ->
+  exists W', run empty_store (map fst c) = Some W' /\ StoreRect W'.
+Proof. exact check_case_sound. Qed.
+Print Assumptions C14_check_case_sound.
+
+(* ---- non-vacuity: two molecules -> ensemble; append a chargeless geometry; two interleaved iterators with a
+        write through a conformer in between; a rejected append (wrong atom count); extend by itself; io round
+        trip; scale of the copy only *)
+Local Open Scope Z_scope.
+Definition ex_h : list op :=
+  [ New (SrcList [GLit [r3 1 2 3; r3 4 5 6] [n 7; n 8]; GLit [r3 11 12 13; r3 14 15 16] [n 17; n 18]]) None 0%nat None None None;
+    Append 0%nat (GGeom [r3 21 22 23; r3 24 25 26]);
+    IterNew 0%nat; IterNext 0%nat; IterNew 0%nat; IterNext 1%nat; IterNext 0%nat;
+    ConfSetCharges 0%nat (-1) [n 41; n 42];
+    IterNext 1%nat; IterNext 1%nat; IterNext 0%nat; IterNext 0%nat; IterNext 1%nat;
+    Append 0%nat (GLit [r3 1 1 1] [n 1]);
+    ExtendEns 0%nat 0%nat; Serialise 0%nat; Scale 1%nat 2 false ].
+
+Example C14_nonvacuous :
+  exists W e0 e1, run empty_store ex_h = Some W /\ enss W = [e0; e1] /\
+    nc e0 = 6%nat /\ nc e1 = 6%nat /\ na e0 = 2%nat /\
+    iter_yields 0 empty_store ex_h = [0; 1; 2]%nat /\ iter_yields 1 empty_store ex_h = [0; 1; 2]%nat /\
+    c_get_charges 2 e0 = Some [n 41; n 42] /\ c_get_charges (-1) e0 = Some [n 41; n 42] /\
+    c_get_coords 5 e0 = Some [r3 21 22 23; r3 24 25 26] /\ c_get_coords 5 e1 = Some [r3 42 44 46; r3 48 50 52] /\
+    weights e0 = [n 1; n 1; n 1; n 1; n 1; n 1] /\
+    step W (Append 0%nat (GLit [r3 1 1 1] [n 1])) = Err /\
+    step empty_store (New (SrcMol (GLit [r3 1 2 3] [n 4])) (Some 0%nat) 0%nat None None None) = Unspec.
+Proof. vm_compute. do 3 eexists. repeat split. Qed.
+
+(* the hypotheses of C14_iter_interleaved are satisfiable: two iterators over a 3-conformer ensemble *)
+Example C14_iter_hypotheses :
+  let W := mkStore [alloc 3 2] [(0, 1); (0, 0)]%nat in
+  let h := [IterNext 1%nat; IterNext 0%nat; Translate1 0%nat (1, 2, 3); IterNext 1%nat; IterNext 0%nat; IterNext 0%nat;
+            IterNext 1%nat; IterNext 1%nat] in
+  IterAt W 0%nat 0%nat 1%nat 3%nat /\ IterAt W 1%nat 0%nat 0%nat 3%nat /\ no_resize h /\ run W h <> None /\
+  iter_yields 0 W h = [1; 2]%nat /\ iter_yields 1 W h = [0; 1; 2]%nat.
+Proof.
+  simpl. repeat split; try (eexists; split; reflexivity); try discriminate.
+  repeat constructor.
+Qed.
